@@ -341,6 +341,19 @@ def check_read(report, db, S, vi, vl, rd, ref, consts):
         def by_test(q):
             """the loop test came out false: no iteration, the loop ends"""
             return q.outcome == ('break', 'cond')
+
+        def after_break_raises(q):
+            """every path of the function that left the loop by this
+            `break` raises afterwards"""
+            found = False
+            for p in paths:
+                for nt in p.notes:
+                    if nt[0] == 'left-by-break' and nt[1] is lp.node and \
+                            nt[2].events is q.events:
+                        found = True
+                        if not p.raises:
+                            return False
+            return found
         for q in lp.paths:
             reads = [e for e in q.flat(('call',)) if is_raw(e)]
             if by_test(q) and not reads:
@@ -374,6 +387,12 @@ def check_read(report, db, S, vi, vl, rd, ref, consts):
                                          subterms(b[0])):
                     bt = b
                     byte_terms.add(struct(b[0]))
+            if oc == 'break' and len(q.outcome) == 1 and (
+                    bt is None or bt[2] is not False) and \
+                    after_break_raises(q):
+                # the bound was reached: the loop is left and what follows
+                # raises -- the same as raising inside the loop
+                continue
             if oc in ('return', 'break') and not (len(q.outcome) == 2
                                                  and oc == 'break'):
                 if bt is None or bt[2] is not False:
@@ -803,6 +822,8 @@ def check_constants(report, db, F, S, basic, rd, sd, sz, ref, consts):
     # size(): first key strictly above the value, in table order
     vparam = sy(sz.all_params[0])
     okk = False
+    lit_items = ('tuple', tuple(('tuple', (('const', k), ('const', v)))
+                                for k, v in tbl.items()))
     for p in S.run(sz):
         for lp in [e for e in p.events if e.kind == 'loop']:
             it = lp.ctx
@@ -839,9 +860,11 @@ def check_constants(report, db, F, S, basic, rd, sd, sz, ref, consts):
                     g = t[2][0]
                     its, elts, filt = g[2][0], g[2][1], g[2][2] if len(
                         g[2]) > 2 else ('tuple', ())
-                    if len(its[1]) == 1 and its[1][0][0] == 'call' and \
-                            its[1][0][1][0] == 'attr' and \
-                            its[1][0][1][2] == 'items' and \
+                    if len(its[1]) == 1 and (
+                            its[1][0] == lit_items or
+                            its[1][0][0] == 'call' and
+                            its[1][0][1][0] == 'attr' and
+                            its[1][0][1][2] == 'items') and \
                             len(filt[1]) == 1:
                         fa, fp = filt[1][0][1]
                         if fp == ('const', True) and fa[1] == '<' and \
